@@ -51,13 +51,19 @@ def gen_cfg(rng, thorough):
                predict_type=(rng.choice([None, 'fine_only', 'pfasst_burnin']) if P > 1 else rng.choice([None, 'fine_only'])) if nl > 1 else None,
                nsweeps=rng.choice([1, 2]) if nl == 1 else [rng.choice([1, 2])] + [1] * (nl - 1),
                initial_guess=rng.choice(['spread', 'copy', 'zero']), do_coll_update=(quad == 'GAUSS') or rng.random() < 0.2)
+    if cfg['num_procs'] > 1 and (quad == 'GAUSS' or cfg['do_coll_update']):
+        # the controller (rightly) refuses PFASST/MSSDC unless uend = u_M: keep the configuration valid
+        cfg['do_coll_update'] = False
+        if quad == 'GAUSS':
+            for lv in cfg['levels']:
+                lv['quad_type'] = 'RADAU-RIGHT'
     nsteps = P * rng.choice([1, 2])
     u0 = [F(rng.randint(1, 3)) * rng.choice([1, -1]) for _ in range(dim)]
     return cfg, u0, nsteps, (lam, c, lamE)
 
 
 def exact_part(ck, rng, thorough):
-    n = 120 if thorough else 30
+    n = 600 if thorough else 150
     worst_ratio = F(0)
     notconv = 0
     for i in range(n):
@@ -114,7 +120,8 @@ def exact_part(ck, rng, thorough):
                 if err > bound:
                     ck.violation('converged step returns a value farther from the collocation solution than ||(I-dtQA)^-1||*restol allows',
                                  dict(meta, step=sidx, component=x, error=float(err), bound=float(bound), K=float(K)),
-                                 match={'kind': 'not_collocation', 'sweeper': kind, 'levels': len(cfg['levels'])})
+                                 match={'kind': 'not_collocation', 'sweeper': kind, 'levels': len(cfg['levels']), 'finished_at_iteration_0': e['iter'] == 0,
+                                        'initial_guess': cfg['initial_guess']})
             prev_end = list(s0['uend'])
         if list(uend.v) != prev_end:
             ck.violation('run() does not return the end value of the last step', meta, match={'kind': 'return_value'})
@@ -133,7 +140,7 @@ def float_part(ck, rng, thorough):
     from pySDC.helpers.stats_helper import get_sorted
     import scipy.sparse as sp
     worst = 0.0
-    n = 40 if thorough else 12
+    n = 160 if thorough else 40
     for i in range(n):
         which = rng.choice(['test', 'heat', 'advection'])
         nl = rng.choice([1, 2]) if which != 'test' else 1
